@@ -162,6 +162,43 @@ func runC11(r *core.Run) {
 		infra string
 		fatal string
 	}
+	// a further signal while the process is cleaning up after the first one: for every fourth signalled run, the same
+	// run again with a second signal at a point it visits after the handler has seen the first
+	// (found by running the one-signal jobs first: what a process does after a signal is read from its own record)
+	first := len(jobs)
+	after := make([][]string, first)
+	core.Parallel(first, 8, func(i int) {
+		j := jobs[i]
+		if j.sig == "" || i%4 != 0 {
+			return
+		}
+		sub := j.sc
+		sub.Name = fmt.Sprintf("%s.pre%d", j.sc.Name, i)
+		_, _, points := runSignalScenario(r, sub, j.env)
+		seen := false
+		for _, p := range points {
+			if p.Point == "signal.seen" {
+				seen = true
+				continue
+			}
+			if seen && p.Point != "encode.row" {
+				after[i] = append(after[i], p.ID)
+			}
+		}
+	})
+	for i := 0; i < first; i++ {
+		if n := len(after[i]); n > 0 {
+			j := jobs[i]
+			for _, k := range []int{0, n / 2} {
+				sig2 := []string{"TERM", "INT", "QUIT"}[(i/4+k)%3]
+				jobs = append(jobs, job{sc: j.sc, env: append(append([]string{}, j.env...), "VERIF_SIGNAL2_AT="+after[i][k]+":"+sig2), id: j.id + "+" + after[i][k], sig: j.sig + "+" + sig2})
+				if n < 2 {
+					break
+				}
+			}
+		}
+	}
+	r.Coverage["second_signal_runs"] = len(jobs) - first
 	outs := make([]out, len(jobs))
 	core.Parallel(len(jobs), 8, func(i int) {
 		j := jobs[i]
@@ -217,6 +254,11 @@ func runC11(r *core.Run) {
 							again = mm[2]
 						}
 					}})
+				if again == "" && strings.Contains(j.sig, "+") {
+					// a second signal races with the end of the process: an observation that does not show again is counted, not reported
+					r.Count("second_signal_observation_not_reproduced", 1)
+					return
+				}
 				if again == "" {
 					core.Fail("C11 observation %s did not reproduce (scenario %s, %s at %s)", m[2], j.sc.Name, j.sig, j.id)
 				}
@@ -264,7 +306,7 @@ func runC11(r *core.Run) {
 	r.Coverage["traces_validated_against_impl"] = len(jobs) + len(batch)
 	r.Coverage["evaluations"] = len(jobs)
 	r.Coverage["distinct_nontrivial"] = r.DistinctCount()
-	r.Coverage["rule"] = "one execution of the real binary per (scenario, termination): no signal, or SIGINT/SIGTERM/SIGQUIT delivered at a hook point id recorded by a reference run (all points with SIGINT; TERM and QUIT on every point in the thorough tier, every 6th in quick); scenarios: read-only, update+commit, auto-commit of two tables, create+commit, create+rollback, error, EXIT, competing lock holder (read and update); non-trivial = distinct (scenario, point id, signal)"
+	r.Coverage["rule"] = "one execution of the real binary per (scenario, termination): no signal, or SIGINT/SIGTERM/SIGQUIT delivered at a hook point id recorded by a reference run (all points with SIGINT; TERM and QUIT on every point in the thorough tier, every 6th in quick); every fourth signalled run repeated with a second signal at the first and at the middle point it visits after the first was seen; scenarios: read-only, update+commit, auto-commit of two tables, create+commit, create+rollback, error, EXIT, competing lock holder (read and update); non-trivial = distinct (scenario, point id, signal)"
 	r.Coverage["exhaustive"] = true
 }
 
